@@ -243,7 +243,7 @@ func runC19(t *simrt.Tape, o Opts) Outcome {
 		partA, partB := "a", "b"
 		if !swept {
 			long := strings.Repeat("customer-0123456", 4)
-			pairs := [][2]string{{"a", "b"}, {"a", "b"}, {long + "-alpha", long + "-beta"}, {"line\nbreak", "line break"}, {"tab\tid", "tab id"}}
+			pairs := [][2]string{{"a", "b"}, {"a", "b"}, {long + "-alpha", long + "-beta"}, {"line\nbreak", "line break"}, {"tab\tid", "tab id"}, {"tenant-7  ", "tenant-7"}, {" lead", "lead"}}
 			pr := pairs[t.Choose(len(pairs), "partition-pair")]
 			partA, partB = pr[0], pr[1]
 		}
